@@ -432,8 +432,8 @@ func init() {
 				Args: func(tier string, l *Loaded) [][]int64 { return [][]int64{{0, 1, 1}} }},
 		}}
 	properties["C20"] = &PropertySpec{ID: "C20",
-		Rule:        "(1) real pathMatches vs the recursive definition of '*': patterns of length 0..4 (thorough 5) and names of length 0..5 (thorough 6) over all printable ASCII except '/', every byte symbolic; (2) real ParsePath(p).GetFileList(\".\") over the model file system: trees of depth <= 2 with up to 2 entries per directory, symbolic 1-byte names over {a,b}, symbolic is-directory bits, patterns of 1..2 segments of 1..2 bytes over {a,b,*}; result compared as a set, no duplicates, no directories; (3) trees of depth 3 with fixed names per level (aa, ab / a, b / a [thorough: a, b]) and symbolic kind of every entry (absent, file, directory with symbolic content), patterns of 1..3 segments chosen symbolically among literal and starred spellings that match one or both names of a level",
-		Assumptions: []string{"directory segments made only of stars and ./.. segments are excluded (as the property states)", "absolute patterns are not explored (the model tree is relative to the working directory)", "ReadDir failing is modelled as the code treats it (empty)"},
+		Rule:        "(1) real pathMatches vs the recursive definition of '*': patterns of length 0..4 (thorough 5) and names of length 0..5 (thorough 6) over all printable ASCII except '/', every byte symbolic; (2) real ParsePath(p).GetFileList(\".\") over the model file system: trees of depth <= 2 with up to 2 entries per directory, symbolic 1-byte names over {a,b}, symbolic is-directory bits, patterns of 1..2 segments of 1..2 bytes over {a,b,*}; result compared as a set, no duplicates, no directories; (3) trees of depth 3 with fixed names per level (aa, ab / a, b / a [thorough: a, b]) and symbolic kind of every entry (absent, file, directory with symbolic content), patterns of 1..3 segments chosen symbolically among literal and starred spellings that match one or both names of a level, written relative or as an absolute path below the working directory (symbolic)",
+		Assumptions: []string{"directory segments made only of stars and ./.. segments are excluded (as the property states)", "absolute patterns are explored only below the working directory", "ReadDir failing is modelled as the code treats it (empty)"},
 		Groups: []JobGroup{
 			{Name: "c20-seg", Overlay: filesOv("C20/c20.go"), Pkg: "files", Entry: "VerifC20Seg",
 				Args: func(tier string, l *Loaded) [][]int64 {
